@@ -63,6 +63,26 @@ Proof. intros. split; [apply swapbytes_is_byte_reversal|apply swapbytes_involuti
 Example C03_byteswap_nonvacuous :
   ba_byteswap false (frombytes [1; 2; 3; 4; 5; 6; 7]) [2; 1] None None true = Ok (frombytes [2; 1; 3; 5; 4; 6; 7], 2).
 Proof. vm_compute. reflexivity. Qed.
+(* a[start:stop] = bits / = integer and del a[start:stop] for ANY start and stop (negative, omitted, out of range, start > stop):
+   Python's clamping, then the splice; an integer is encoded in exactly the width of the slice (zero width or a value that does not fit: ValueError) *)
+Theorem C03_slice_assignment_bits : forall b start stop v,
+  ba_setitem_slice false b (mkslice start stop None) (VBits v) =
+  Ok (take (pyclamp (zlen b) start 0) b ++ v ++ drop (Z.max (pyclamp (zlen b) start 0) (pyclamp (zlen b) stop (zlen b))) b).
+Proof. exact setslice_bits_any. Qed.
+Theorem C03_slice_deletion : forall b start stop,
+  ba_delitem_slice false b (mkslice start stop None) =
+  Ok (take (pyclamp (zlen b) start 0) b ++ drop (Z.max (pyclamp (zlen b) start 0) (pyclamp (zlen b) stop (zlen b))) b).
+Proof. exact delslice_any. Qed.
+Theorem C03_slice_assignment_int : forall b start stop v,
+  let a := pyclamp (zlen b) start 0 in let o := pyclamp (zlen b) stop (zlen b) in let n := Z.max 0 (o - a) in
+  ba_setitem_slice false b (mkslice start stop None) (VInt v) =
+  if n =? 0 then Err ValueError else
+  match int2ba v n (v <? 0) with
+  | Ok vb => Ok (take a b ++ vb ++ drop (Z.max a o) b)
+  | Err OverflowError => Err ValueError
+  | Err e => Err e
+  end.
+Proof. exact setslice_int_any. Qed.
 (* the in-place & | ^ are covered by C16 (same model functions) *)
 
 Example C03_nonvacuous :
@@ -81,3 +101,6 @@ Print Assumptions C03_imul.
 Print Assumptions C03_byteswap.
 Print Assumptions C03_byteswap_frame.
 Print Assumptions C03_swapbytes_reverses_the_bytes.
+Print Assumptions C03_slice_assignment_bits.
+Print Assumptions C03_slice_deletion.
+Print Assumptions C03_slice_assignment_int.
